@@ -10,6 +10,7 @@ request:  sim <R|F> <de|ed> <nPre> <nPer> <nCols> ; <section> ; <section> ...
   mode R = exact rationals, F = IEEE doubles (replies are the 64 bits of each double)
 reply:    ok <admissible flag per step, T/F> <branch per step: S simulate, W when_data fallback, X exogenized> <C|N: closed-form order condition holds> P<nPre>/<nPost> ; <row>: v ... ; ...
           (values for the base columns nPre .. nPre+nPer-1)   |  err:bad | err:unsupported | bad-op
+request:  reorder <n> | <perm> | <perm> ...     reply:  the order of the n equations after the re-orderings
 request:  merge <target keys> | <out keys>        reply:  key=t|o ... (the returned databox `target_db | out_db`, in order)
 -/
 import IrisVerif.Model.Sequential
@@ -184,9 +185,19 @@ def mergeLine (rest : List String) : String :=
     " ".intercalate ((mergeOutput target out).map fun p => p.1 ++ "=" ++ p.2)
   | _ => "bad-op"
 
+/-- `reorder <n> | <perm> | <perm> ...`: the order of the `n` equations after the re-orderings (`reorder_equations`) -/
+def reorderLine (rest : List String) : String :=
+  match ((" ".intercalate rest).splitOn "|").map words with
+  | [n] :: perms =>
+    match n.toNat?, perms.mapM (fun ws => ws.mapM (fun (w : String) => w.toNat?)) with
+    | some n, some ps => " ".intercalate ((ps.foldl (fun l p => reorderList p l) (List.range n)).map toString)
+    | _, _ => "bad-op"
+  | _ => "bad-op"
+
 def step (line : String) : String :=
   match words line with
   | "merge" :: rest => mergeLine rest
+  | "reorder" :: rest => reorderLine rest
   | _ =>
   match line.splitOn ";" with
   | head :: sections =>
